@@ -27,7 +27,7 @@ type mSpec struct {
 }
 
 func drawPlaceholder(r *rand.Rand) (any, string) {
-	switch r.IntN(9) {
+	switch r.IntN(10) {
 	case 0:
 		return "x", "string-short"
 	case 1:
@@ -44,6 +44,9 @@ func drawPlaceholder(r *rand.Rand) (any, string) {
 		return map[string]any{"x": 1, "y": "two"}, "map"
 	case 7:
 		return []any{1, "b", nil}, "slice"
+	case 8:
+		// strings that would resolve to another type if written as plain YAML scalars
+		return []string{"10", "007", "3.14", "0x1F", "true", "false", "null", "~", "1e3"}[r.IntN(9)], "string-looking-like-another-type"
 	default:
 		return "with \"quotes\" and \\ and \n", "string-escapes"
 	}
